@@ -116,11 +116,21 @@ func sameRec(a, b stepRec) bool {
 		return false
 	}
 	for i := range a.errs {
-		if a.errs[i] != b.errs[i] {
+		if normFree(a.errs[i]) != normFree(b.errs[i]) {
 			return false
 		}
 	}
 	return true
+}
+
+var reFreeBytes = regexp.MustCompile(`, \d+ free`)
+
+// normFree removes the one run-dependent number of an error text: the free memory reported by the memory guard.
+func normFree(e string) string {
+	if strings.Contains(e, "would exceed memory") {
+		return reFreeBytes.ReplaceAllString(e, ", N free")
+	}
+	return e
 }
 
 // globalsDump dumps all globals of a state through SaveGlobals (sorted, one per line).
